@@ -55,6 +55,40 @@ def gen(seed, idx, tier):
   }  # fmt: skip
 
 
+def _solver_cost_gap(mujoco, mjm, mjd, qacc_w):
+  """Relative excess of the constraint-solver cost of mujoco_warp's qacc over MuJoCo's own, both evaluated in float64 on MuJoCo's rows
+  (equality, friction loss, limits, frictionless and pyramidal contacts; None when an elliptic row is present or there is no row).
+  A positive gap means mujoco_warp's solver stopped above the optimum MuJoCo reached: a solver matter (C06), reported as such."""
+  n, nv = int(mjd.nefc), int(mjm.nv)
+  if n == 0 or nv == 0 or np.any(np.asarray(mjd.efc_type) == 7):
+    return None
+  J = np.zeros((n, nv))
+  if mujoco.mj_isSparse(mjm):
+    mujoco.mju_sparse2dense(J, mjd.efc_J, mjd.efc_J_rownnz, mjd.efc_J_rowadr, mjd.efc_J_colind)
+  else:
+    J = np.asarray(mjd.efc_J).reshape(n, nv).copy()
+  aref, D, typ, fl = np.asarray(mjd.efc_aref), np.asarray(mjd.efc_D), np.asarray(mjd.efc_type), np.asarray(mjd.efc_frictionloss)
+
+  def cost(qacc):
+    dq = qacc - mjd.qacc_smooth
+    Mdq = np.zeros(nv)
+    mujoco.mj_mulM(mjm, mjd, Mdq, dq)
+    c = 0.5 * float(dq @ Mdq)
+    jar = J @ qacc - aref
+    for i in range(n):
+      if typ[i] == 0:
+        c += 0.5 * D[i] * jar[i] ** 2
+      elif typ[i] in (1, 2):
+        R = 1.0 / D[i]
+        c += (-0.5 * R * fl[i] ** 2 - fl[i] * jar[i]) if jar[i] <= -R * fl[i] else (-0.5 * R * fl[i] ** 2 + fl[i] * jar[i]) if jar[i] >= R * fl[i] else 0.5 * D[i] * jar[i] ** 2
+      elif jar[i] < 0:
+        c += 0.5 * D[i] * jar[i] ** 2
+    return c
+
+  cm, cw = cost(np.asarray(mjd.qacc, dtype=np.float64)), cost(np.asarray(qacc_w, dtype=np.float64))
+  return (cw - cm) / max(abs(cm), 1e-12)
+
+
 def run(sc):
   import mujoco
 
@@ -97,12 +131,14 @@ def run(sc):
       stats["skipped"]["nonfinite_state"] = 1
       break
     core.clear_overflow(d)
-    mjw.step(m, d)
+    with core.StageNeed() as tap:
+      mjw.step(m, d)
     stats["sim_time"] += dt * nworld
     S2 = core.get_istate(mjm, m, d)
     ov = d.overflow.numpy()
     nefc_w = d.nefc.numpy()
     niter_w = d.solver_niter.numpy()
+    qacc_w = d.qacc.numpy().copy()
     if scen.capacity_overflow(d):
       stats["skipped"]["capacity_overflow"] = stats["skipped"].get("capacity_overflow", 0) + 1
       break
@@ -127,7 +163,7 @@ def run(sc):
         if mine.shape != theirs.shape or (mine.size and float(np.max(np.abs(mine - theirs))) > 1e-4):
           stats["skipped"]["contact_sets_differ"] = stats["skipped"].get("contact_sets_differ", 0) + 1
           continue
-      elif mjd.ncon or int((con_w == w).sum()):
+      elif mjd.ncon or int((con_w == w).sum()) or tap.nacon:  # tap: a contact in ANY Runge-Kutta stage of any world (the final stage may have none)
         stats["skipped"]["rk4_with_contacts"] = stats["skipped"].get("rk4_with_contacts", 0) + 1
         continue
       want = np.zeros(off)
@@ -196,10 +232,12 @@ def run(sc):
         stats["faults"][key] = max(stats["faults"].get(key, 0), int(1e9 * err / scale))
         if err > tol:
           i = int(np.argmax(np.abs(x - y)))
+          gap = _solver_cost_gap(mujoco, mjm, mjd, qacc_w[w]) if (constrained and integ != "rk4") else None
           viols.append({"class": {"oracle": "step_matches_mujoco", "component": name, "integrator": integ, "constrained": bool(constrained),
-                                  "leaf_free_body": leaf_free},
+                                  "leaf_free_body": leaf_free, "mjw_solver_above_optimum": bool(gap is not None and gap > 1e-3)},
                         "detail": {"step": k + 1, "world": w, "index": i, "got": float(x[i]), "want": float(y[i]), "err": err, "tol": tol, "nefc": int(nefc_w[w]),
-                                   "mj_nefc": int(mjd.nefc), "mjw_niter": int(d.solver_niter.numpy()[w]), "mj_niter": int(mjd.solver_niter[0])}})
+                                   "mj_nefc": int(mjd.nefc), "mjw_niter": int(d.solver_niter.numpy()[w]), "mj_niter": int(mjd.solver_niter[0]),
+                                   "solver_cost_gap": gap}})
           break
       if viols:
         break
